@@ -21,11 +21,13 @@ namespace celeritas
 void ActionRegistry::insert_mutable_impl(SPAction&& action)
 {
     CELER_EXPECT(action);
+    // Validate and register first so that a rejected action is not left in
+    // the list of mutable actions
+    this->insert_impl(SPConstAction{action});
     if (dynamic_cast<MutableActionInterface*>(action.get()))
     {
-        mutable_actions_.push_back(action);
+        mutable_actions_.push_back(std::move(action));
     }
-    return this->insert_impl(std::move(action));
 }
 
 //---------------------------------------------------------------------------//
